@@ -1183,12 +1183,24 @@ def check_C11(ctx):
         n = min(n, 40)     # every position costs ~11 hook-placed sessions; keeps the escalated quick tier within minutes
     pool = small_pool(ctx, n, max_men=14 if ctx.quick else 24)
     pool = [(f, c) for f, c in pool if c >= 2]
+    # positions with a forced mate in two moves, interrupted late inside iteration 3 - the iteration that finds the
+    # mate: a mate score seen in an unfinished iteration is no reason to keep that iteration
+    mts, _ = mate_positions(ctx, 6 if ctx.quick else 60)
+    m3 = [f for f, v in mts if v == "win 3"]
+    m3c = run_batch(MDRV, [f"sgen\t{f}" for f in m3])
+    matepool = [(f, int(kv(r).get("cnt", "0"))) for f, r in zip(m3, m3c)]
+    matepool = [(f, c) for f, c in matepool if c >= 4 and f not in dict(pool)][: (6 if ctx.quick else 60)]
+    ctx.bump("mate_in_two_positions", len(matepool))
+    mateset = set(f for f, _ in matepool)
+    pool = pool + matepool
     items = []
     k = 0
     for f, cnt in pool:
         pts = [(2, 0), (2, min(1, cnt - 1)), (3, 0), (3, min(2, cnt - 1)), (2, cnt - 1), (4, 0), (2, max(0, cnt - 2)), (3, max(0, cnt - 2)), (3, cnt - 1), (4, max(0, cnt - 2))]
+        if f in mateset:
+            pts = sorted(set([(3, cnt - 2), (3, cnt // 2), (3, max(0, cnt - 3)), (3, (3 * cnt) // 4)]))
         for mode in ("stop", "expire"):
-            chosen = ctx.rng.sample(pts, 2 if ctx.quick else 4)
+            chosen = pts if f in mateset else ctx.rng.sample(pts, 2 if ctx.quick else 4)
             for (d, i) in chosen:
                 k += 1
                 items.append((f, mode, f"rootmove:{d}:{i}", os.path.join(BUILD, f"ctl_{os.getpid()}_{k}")))
@@ -1817,6 +1829,42 @@ def wallclock_check(ctx):
         if st != "match" or el > allowed:
             ctx.violation(f"wall:{fen}:{T}", {"kind": "input", "lines": [f"position {fen}", f"go movetime {T}"], "what": f"bestmove after {el:.3f}s, allowed {allowed:.3f}s (deadline {T-50} ms + depth-1 search {d1:.3f}s + slack)"})
     ctx.notes.append(f"wall-clock (partial, measured): worst overshoot beyond deadline {worst:.3f}s over {len(items)} runs")
+    # the same clause after session histories: whatever was searched before (terminal roots, infinite searches,
+    # stopped / finished / rejected searches), a timed `go` answers by its deadline
+    def after_history(item):
+        name, go_line, ms = item
+        s = Session()
+        try:
+            for l in EXIT_STATES[name]:
+                if l == "<bestmove>":
+                    wait_bestmove(s, 20.0)
+                elif l.startswith("<sleep "):
+                    time.sleep(float(l[7:-1]))
+                else:
+                    s.send(l)
+            # consume everything the history printed (a terminal root answers `bestmove 0000` at once)
+            s.send("isready")
+            s.read_until(lambda l: l == "readyok", 10.0)
+            s.drain(0.02)
+            s.send("position startpos moves e2e4")
+            t0 = time.time()
+            s.send(go_line)
+            got, st = wait_bestmove(s, ms / 1000.0 + 3.0)
+            return time.time() - t0, st
+        finally:
+            s.kill()
+    hist = [h for h in EXIT_STATES if not h.startswith("mid-")]
+    hitems = [(h, g, ms) for h in hist for (g, ms) in (("go wtime 3000 btime 3000 winc 0 binc 0 movestogo 10", 250), ("go movetime 200", 150))]
+    for (h, g, ms), r in zip(hitems, parallel_map(after_history, hitems, workers=4)):
+        if not isinstance(r, tuple):
+            continue
+        el, st = r
+        ctx.case(f"wall-history:{h}:{g}")
+        ctx.bump("wall_after_history")
+        allowed = ms / 1000.0 + 0.45
+        if st != "match" or el > allowed:
+            ctx.violation(f"wall-history:{h}:{g}", {"kind": "history", "lines": EXIT_STATES[h] + ["position startpos moves e2e4", g],
+                                                   "what": f"after the history `{h}` the timed search answered after {el:.3f}s ({st}); its deadline is {ms} ms after `go` (allowed {allowed:.3f}s with the depth-1 search and slack)"})
 
 # --------------------------------------------------------------------------------------------------
 # C04 / C05: search values
@@ -2801,6 +2849,19 @@ TERMINAL_FENS = [
 ]
 
 
+STATE_EDGE_FENS = [
+    "4k3/8/4p3/3pP3/8/6q1/8/7K w - d6 0 2",          # the en passant capture is the only legal move (else stalemate)
+    "7k/8/4p3/3pP3/4K3/r7/4n3/8 w - d6 0 2",         # in check, the en passant capture is the only answer
+    "rnbqkbnr/ppp1pppp/8/8/3pP3/8/PPPP1PPP/RNBQKBNR b KQkq e3 0 3",   # en passant among other moves
+    "r3k2r/p1ppqpb1/bn2pnp1/3PN3/1p2P3/2N2Q1p/PPPBBPPP/R3K2R w KQkq - 0 1",
+    "8/P6k/8/8/8/8/7p/K7 w - - 0 1",                 # promotions pending on both sides
+    "7k/8/8/8/2b5/8/PP6/K5r1 w - - 0 1",             # in check, single reply
+    "k7/P7/K7/8/8/8/7p/8 b - - 0 1",                 # king stalemated, only pawn moves (promotions)
+    "r3k3/8/8/8/8/8/8/4K2R w Kq - 0 1",              # partial castling rights
+    "8/8/8/8/1pP5/8/k1K5/8 b - c3 0 1",              # en passant with few other moves
+]
+
+
 def check_C16(ctx):
     n = ctx.size(30, 1000)
     pool = small_pool(ctx, n, max_men=32)
@@ -2871,6 +2932,15 @@ def check_C16(ctx):
             qs.insert(ctx.rng.randint(0, len(qs)), ("line", "eval"))
         d = 3 if sum(1 for c in f.split()[0] if c.isalpha()) <= 16 else 2
         items.append((f, d, qs))
+    # positions whose state is easy to damage (en passant as the only move, single replies, pending promotions,
+    # partial castling rights, no legal move) x EVERY kind of query on its own: nothing is left to the dice
+    edge = gens.legal_filter(list(dict.fromkeys(STATE_EDGE_FENS + [gens.mirror_fen(f) for f in STATE_EDGE_FENS]))) + term
+    singles = [[("line", "eval")], [("line", "perft 2")], [("line", "tperft 2")], [("line", "tostr")], [("go_wait", "go depth 2")],
+               [("go_stop", "go infinite", 0.05)], [("go_wait", "go movetime 40")], [("line", "eval"), ("line", "eval")]]
+    for f in edge:
+        for q in (singles if not ctx.quick else ctx.rng.sample(singles[1:], 3) + [singles[0]]):
+            items.append((f, 2, list(q)))
+    ctx.bump("edge_state_sessions", len(edge))
     res = parallel_map(one, items, workers=8)
     ctx.co["co_query"] = len(items)
     for (f, d, qs), r in zip(items, res):
